@@ -302,14 +302,35 @@ fn dec_vars(t: &str) -> Option<BTreeMap<String, String>> {
     Some(m)
 }
 
-fn run_props(m: &BTreeMap<String, String>) -> String {
+/// how often the real write is repeated to meet the iteration order the model was asked for
+const ORDER_TRIES: usize = 200;
+
+/// `map_to_properties` copies the entries into a fresh `HashMap` (fresh `RandomState`) on every
+/// call and writes them in that map's iteration order, so the text — and with it the entry that
+/// loses its trailing blank to the command's `trim`, or which of two colliding keys wins — differs
+/// from call to call.  The model writes the entries in the order of the request token.  The real
+/// round trip is therefore repeated (same map, new call) until its outcome equals the model's
+/// outcome `want`, at most ORDER_TRIES times; the outcome of the last call is reported.  Maps of
+/// fewer than two entries are run once.
+fn run_props(m: &BTreeMap<String, String>, want: Option<&str>) -> String {
     let mut ctx = sdk_context();
     let h1 = "handle:c17map0000000000000a";
     let h2 = "handle:c17map0000000000000b";
     let sub: HashMap<String, StateValue> = m.iter().map(|(k, v)| (k.clone(), StateValue::String(v.clone()))).collect();
     handles(&mut ctx).insert(h1.to_string(), StateValue::SubState(sub));
-    handles(&mut ctx).insert(h2.to_string(), StateValue::SubState(HashMap::new()));
-    let text = match call(&mut ctx, "map_to_properties", &[val(h1)]) {
+    let mut last = String::new();
+    for _ in 0..ORDER_TRIES {
+        handles(&mut ctx).insert(h2.to_string(), StateValue::SubState(HashMap::new()));
+        last = props_once(&mut ctx, h1, h2);
+        if want.is_none() || want == Some(last.as_str()) || m.len() < 2 {
+            break;
+        }
+    }
+    last
+}
+
+fn props_once(ctx: &mut Context, h1: &str, h2: &str) -> String {
+    let text = match call(ctx, "map_to_properties", &[val(h1)]) {
         Ok(Some(t)) => t,
         Ok(None) => return "err-write-none".into(),
         Err(_) => return "err-write".into(),
@@ -317,11 +338,15 @@ fn run_props(m: &BTreeMap<String, String>) -> String {
     if std::env::var("C17_DEBUG").is_ok() {
         eprintln!("properties text: {:?}", text);
     }
-    match call(&mut ctx, "map_load_properties", &[val(h2), val(&text)]) {
+    match call(ctx, "map_load_properties", &[val(h2), val(&text)]) {
         Ok(_) => {}
         Err(_) => return "err-load".into(),
     }
-    let loaded: BTreeMap<String, String> = match handles(&mut ctx).get(h2) {
+    loaded_map(ctx, h2)
+}
+
+fn loaded_map(ctx: &mut Context, h2: &str) -> String {
+    let loaded: BTreeMap<String, String> = match handles(ctx).get(h2) {
         Some(StateValue::SubState(s)) => s
             .iter()
             .map(|(k, v)| (k.clone(), match v { StateValue::String(x) => x.clone(), _ => "<non-string>".to_string() }))
@@ -329,6 +354,37 @@ fn run_props(m: &BTreeMap<String, String>) -> String {
         _ => return "err-nomap".into(),
     };
     format!("ok {}", enc_vars(&loaded))
+}
+
+/// the text `map_to_properties` returns (repeated like `run_props` until it is the model's text)
+fn run_write(m: &BTreeMap<String, String>, want: &str) -> String {
+    let mut ctx = sdk_context();
+    let h1 = "handle:c17map0000000000000a";
+    let sub: HashMap<String, StateValue> = m.iter().map(|(k, v)| (k.clone(), StateValue::String(v.clone()))).collect();
+    handles(&mut ctx).insert(h1.to_string(), StateValue::SubState(sub));
+    let mut last = String::new();
+    for _ in 0..ORDER_TRIES {
+        last = match call(&mut ctx, "map_to_properties", &[val(h1)]) {
+            Ok(Some(t)) => enc_str(&t),
+            Ok(None) => "err-write-none".into(),
+            Err(_) => "err-write".into(),
+        };
+        if last == want || m.len() < 2 {
+            break;
+        }
+    }
+    last
+}
+
+/// `map_load_properties` of an arbitrary text (passed through a variable) into an empty map
+fn run_load(text: &str) -> String {
+    let mut ctx = sdk_context();
+    let h2 = "handle:c17map0000000000000b";
+    handles(&mut ctx).insert(h2.to_string(), StateValue::SubState(HashMap::new()));
+    match call(&mut ctx, "map_load_properties", &[val(h2), val(text)]) {
+        Ok(_) => loaded_map(&mut ctx, h2),
+        Err(_) => "err-load".into(),
+    }
 }
 
 fn all_chars(m: &BTreeMap<String, String>) -> impl Iterator<Item = char> + '_ {
@@ -540,11 +596,82 @@ fn json_case(v: &Value) -> Case {
 }
 fn props_case(m: &BTreeMap<String, String>) -> Case {
     Case {
-        req: format!("e17props {}", enc_vars(m)),
+        req: format!("m17props {}", enc_vars(m)),
         in_domain: true,
         nontrivial: !m.is_empty(),
         tags: vec!["props", match props_known_class(m) { Some("C17/properties-trailing-space") => "props-trailing-space", Some(_) => "props-known-class-chars", None => "props-plain" }],
     }
+}
+
+/// fragments of properties texts: keys, the three kinds of separators, comment markers, every
+/// escape the reader knows and malformed ones, line ends, continuation lines, non-ASCII text (read
+/// byte-wise as windows-1252), a BOM (switches the reader to UTF-8)
+const LOAD_FRAGS: [&str; 66] = [
+    "k", "key", "a.b", "K2", "k", "v", "value", "x y", "=", "=", ":", " ", "  ", "\t", "\x0c", " = ", " : ", "#", "!", "# note", "! note",
+    "\\", "\\\\", "\\t", "\\n", "\\r", "\\f", "\\:", "\\=", "\\ ", "\\#", "\\!", "\\b", "\\z", "\\u0041", "\\u00e9", "\\u4E2d", "\\uD83D\\uDE00", "\\ud800",
+    "\\u+041", "\\u-041", "\\u12", "\\u", "\\uzzzz", "\\u 041", "\\U0041", "\n", "\n", "\n", "\r", "\r\n", "\n\n", "\\\n", "\\\r\n", "\\\n   ", "\\\\\n", "\\\n#", "\\\n\n",
+    "é", "中", "😀", "€", "\u{a0}", "\u{85}", "\0", "\u{feff}",
+];
+fn gen_load_text(rng: &mut Rng) -> String {
+    let mut t = String::new();
+    if rng.chance(1, 25) {
+        t.push('\u{feff}');
+    }
+    for _ in 0..rng.below(11) {
+        if rng.chance(1, 12) {
+            t.push(*rng.pick(&PROP_CHARS));
+        } else {
+            t.push_str(rng.pick_s(&LOAD_FRAGS));
+        }
+    }
+    t
+}
+const LOAD_FIXED: [&str; 64] = [
+    "", "\n", "\r", "\r\n", " ", "k", "k=", "k:", "k ", "=v", ":v", "=", ":", "k=v", "k:v", "k v", "k\tv", "k\x0cv", "k = v", "k : v", "k  v", "k =  v ", "  k=v", "\tk=v",
+    "k==v", "k=:v", "k: =v", "k = = v", "k=v\n", "k=v\r\nk2=v2\r\n", "k=v\rk2=v2", "a=1\nb=2\na=3", "a=1\n\n\nb=2", "# c\nk=v", "! c\nk=v", "  # c\nk=v", "#k=v", "k=#v", "k#=v", "k!v",
+    "k\\ 1=v", "k\\=1=v", "k\\:1:v", "k\\\\=v", "k=a\\tb\\nc\\rd\\fe", "k=\\u0041\\u00E9\\u4e2d", "k=\\ud83d\\ude00", "k=\\u12", "k=\\u+123", "k=\\u-123", "k=\\uD800", "k=\\x\\y\\'",
+    "k=a\\\nb", "k=a\\\n   b", "k=a\\\r\n\tb", "k=a\\\\\nb", "k=a\\", "k=a\\\n", "k\\", "#c\\\nk=v", "k=a\\\n#b", "# \\u12\nk=v", "\u{feff}k=é", "k=é中€\u{a0}",
+];
+
+fn load_case(t: &str) -> Case {
+    let kind = if t.contains("\\\n") || t.contains("\\\r") {
+        "load-continuation"
+    } else if t.contains('#') || t.contains('!') {
+        "load-comment-marker"
+    } else if t.contains('\\') {
+        "load-escapes"
+    } else {
+        "load-plain"
+    };
+    Case { req: format!("m17load {}", enc_str(t)), in_domain: false, nontrivial: !t.is_empty(), tags: vec!["load", kind] }
+}
+/// maps for the text comparison: like the round-trip maps, plus keys/values that fill the
+/// writer's 256-byte buffer (and its first enlargement, 768) up to an unmappable character
+fn gen_write_map(rng: &mut Rng) -> (BTreeMap<String, String>, bool) {
+    let mut m = BTreeMap::new();
+    let long = rng.chance(1, 3);
+    for _ in 0..rng.below(4) {
+        m.insert(gen_prop_text(rng, 1), gen_prop_text(rng, 0));
+    }
+    if long {
+        let n = *rng.pick(&[240usize, 247, 249, 250, 251, 252, 253, 254, 255, 256, 257, 260, 500, 760, 762, 763, 765, 767, 768, 769, 1000]) + rng.below(3);
+        let fill: String = match rng.below(4) {
+            0 => " ".repeat(n / 2),
+            1 => "ab=".chars().cycle().take(n * 3 / 4).collect(),
+            _ => "a".repeat(n),
+        };
+        let tail: String = (0..1 + rng.below(3)).map(|_| *rng.pick(&['中', '\u{100}', '😀', '\u{1}', 'x', ' ', '\u{ffff}', '\u{1000}'])).collect();
+        let text = format!("{}{}{}", fill, tail, if rng.chance(1, 2) { "zz" } else { "" });
+        if rng.chance(1, 3) {
+            m.insert(text, "v".to_string());
+        } else {
+            m.insert(gen_prop_text(rng, 1), text);
+        }
+    }
+    (m, long)
+}
+fn write_case(m: &BTreeMap<String, String>, long: bool) -> Case {
+    Case { req: format!("m17write {}", enc_vars(m)), in_domain: false, nontrivial: !m.is_empty(), tags: vec!["write", if long { "write-long" } else { "write-short" }] }
 }
 
 impl Prop for C17Prop {
@@ -552,12 +679,12 @@ impl Prop for C17Prop {
         "C17"
     }
     fn rule(&self) -> &'static str {
-        "seven request kinds through the real SDK commands, every value passed through a variable: (text) texts of 0..12 characters from a pool with NUL, control characters, '$ { } % quotes backslash', 1/2/3/4-byte scalars incl. the boundary code points U+7F/80/7FF/800/D7FF/E000/FFFF/10000/10FFFF: string_to_bytes -> base64_encode -> base64_decode -> bytes_to_string, all intermediate byte arrays read from the handle store; (bytes) arbitrary byte strings incl. invalid UTF-8: base64 there and back + bytes_to_string; (b64d) valid encodings with one mutation (drop/replace/insert/pad) decoded; (hex) decimal texts incl. 0, 2^64-1, 2^64, signs, blanks: hex_encode -> hex_decode; (hexd) arbitrary spellings with repeated/odd 0x prefixes decoded; (json) serde_json::Value documents of depth <= 5 and width <= 6 with string/number/bool/null leaves and keys containing dots, blanks, brackets, quotes, NUL and non-ASCII: json_parse --collection -> json_encode --collection, compared with the normalisation computed in Rust; (props) maps of <= 5 entries with keys/values over a pool with '= : # ! backslash blank tab newline' and non-ASCII: map_to_properties -> map_load_properties into a fresh map. Fixed cases: all texts of <= 2 pool characters, all byte strings of length <= 1 and all continuation patterns of 2 bytes from a boundary set, corner integers, hand-written JSON documents and maps. Non-trivial = non-empty input (json: at least one array/object); distinct = distinct request."
+        "nine request kinds through the real SDK commands, every value passed through a variable: (text) texts of 0..12 characters from a pool with NUL, control characters, '$ { } % quotes backslash', 1/2/3/4-byte scalars incl. the boundary code points U+7F/80/7FF/800/D7FF/E000/FFFF/10000/10FFFF: string_to_bytes -> base64_encode -> base64_decode -> bytes_to_string, all intermediate byte arrays read from the handle store; (bytes) arbitrary byte strings incl. invalid UTF-8: base64 there and back + bytes_to_string; (b64d) valid encodings with one mutation (drop/replace/insert/pad) decoded; (hex) decimal texts incl. 0, 2^64-1, 2^64, signs, blanks: hex_encode -> hex_decode; (hexd) arbitrary spellings with repeated/odd 0x prefixes decoded; (json) serde_json::Value documents of depth <= 5 and width <= 6 with string/number/bool/null leaves and keys containing dots, blanks, brackets, quotes, NUL and non-ASCII: json_parse --collection -> json_encode --collection, compared with the normalisation computed in Rust; (props) maps of <= 5 entries with keys/values over a pool with '= : # ! backslash blank tab newline' and non-ASCII: map_to_properties -> map_load_properties into a fresh map, compared with the Lean model of the java-properties writer/reader run on the entries in the order of the request (the real command writes in the iteration order of a fresh HashMap: the real round trip is repeated, at most 200 times, until its outcome is the model's; the last outcome is reported and the round-trip relation is evaluated on it); (write) the text map_to_properties returns for maps of <= 3 entries, one third of them with a key or value of 240..1002 characters ending in an unmappable character at the writer's buffer boundaries (256, 768), compared with the model's text (same repetition); (load) properties texts of <= 10 fragments (keys, '=' ':' blank tab form-feed separators, '#'/'!' comments, every escape incl. malformed \\u forms, LF/CR/CRLF, continuation lines, blank lines, non-ASCII, NBSP, BOM) loaded by the real map_load_properties through a variable, compared with the model. Fixed cases: 64 hand-written properties texts, writer texts around the 256-byte boundary, all texts of <= 2 pool characters, all byte strings of length <= 1 and all continuation patterns of 2 bytes from a boundary set, corner integers, hand-written JSON documents and maps. Non-trivial = non-empty input (json: at least one array/object); distinct = distinct request."
     }
     fn budget(&self, tier: Tier) -> usize {
         match tier {
-            Tier::Quick => 20_000,
-            Tier::Thorough => 2_000_000,
+            Tier::Quick => 24_000,
+            Tier::Thorough => 2_400_000,
         }
     }
     fn fixed_cases(&self, _tier: Tier) -> Vec<Case> {
@@ -653,10 +780,22 @@ impl Prop for C17Prop {
             let m: BTreeMap<String, String> = m.into_iter().map(|(k, v)| (k.to_string(), v.to_string())).collect();
             out.push(props_case(&m));
         }
+        for t in LOAD_FIXED {
+            out.push(load_case(t));
+        }
+        // the writer's text: corner maps and values that end at the buffer boundary
+        for (k, v) in [("k", "v"), ("a b", " x: y\t"), ("#!=:\\", "\r\n\u{c}"), ("k", "中"), ("k", "\u{100}"), ("k", "😀"), ("k", "é"), ("k", "\u{0}\u{1f}\u{7f}"), ("k", "a "), ("", "")] {
+            let m: BTreeMap<String, String> = [(k.to_string(), v.to_string())].into_iter().collect();
+            out.push(write_case(&m, false));
+        }
+        for n in 248..=258usize {
+            let m: BTreeMap<String, String> = [("k".to_string(), format!("{}中x", "a".repeat(n)))].into_iter().collect();
+            out.push(write_case(&m, true));
+        }
         out
     }
     fn generate(&self, rng: &mut Rng, _tier: Tier) -> Case {
-        match rng.below(20) {
+        match rng.below(24) {
             0..=4 => {
                 // mostly short; one in six long (block / buffer boundaries of the encoders)
                 let max = match rng.below(18) { 0 => 300, 1 => 1100, 2 => 70, _ => 12 };
@@ -709,10 +848,15 @@ impl Prop for C17Prop {
                 let d = 1 + rng.below(5);
                 json_case(&gen_json(rng, d))
             }
-            _ => props_case(&gen_props(rng)),
+            17..=19 => props_case(&gen_props(rng)),
+            20..=22 => load_case(&gen_load_text(rng)),
+            _ => {
+                let (m, long) = gen_write_map(rng);
+                write_case(&m, long)
+            }
         }
     }
-    fn run_impl(&self, req: &str, _m: &str) -> String {
+    fn run_impl(&self, req: &str, model_out: &str) -> String {
         let t: Vec<&str> = req.split(' ').collect();
         if t.len() != 2 {
             return "BAD-REQUEST".into();
@@ -724,7 +868,11 @@ impl Prop for C17Prop {
             "e17hex" => run_hex(&dec_str(t[1]).unwrap()),
             "e17hexd" => run_hexd(&dec_str(t[1]).unwrap()),
             "e17json" => run_json(&value_of_tok(t[1]).unwrap()),
-            "e17props" => run_props(&dec_vars(t[1]).unwrap()),
+            // legacy op (corpus lines): the model side is only the property's reading, one run
+            "e17props" => run_props(&dec_vars(t[1]).unwrap(), None),
+            "m17props" => run_props(&dec_vars(t[1]).unwrap(), Some(model_out)),
+            "m17write" => run_write(&dec_vars(t[1]).unwrap(), model_out),
+            "m17load" => run_load(&dec_str(t[1]).unwrap()),
             _ => "BAD-REQUEST".into(),
         }
     }
@@ -761,13 +909,13 @@ impl Prop for C17Prop {
                     Some(o.len() == 3 && o[0] == "J" && o[1] == o[2])
                 }
             }
-            "e17props" => Some(imp == format!("ok {}", t[1])),
+            "e17props" | "m17props" => Some(imp == format!("ok {}", t[1])),
             _ => None,
         }
     }
     fn known(&self, req: &str, _m: &str, imp: &str) -> Option<String> {
         let t: Vec<&str> = req.split(' ').collect();
-        if t[0] == "e17props" && !imp.starts_with("PANIC") {
+        if (t[0] == "e17props" || t[0] == "m17props") && !imp.starts_with("PANIC") {
             if let Some(m) = dec_vars(t[1]) {
                 return props_known_class(&m).map(|s| s.to_string());
             }
@@ -778,7 +926,7 @@ impl Prop for C17Prop {
         let t: Vec<&str> = req.split(' ').collect();
         let mut out = vec![];
         match t[0] {
-            "e17text" | "e17b64d" | "e17hex" | "e17hexd" => {
+            "e17text" | "e17b64d" | "e17hex" | "e17hexd" | "m17load" => {
                 if let Some(s) = dec_str(t[1]) {
                     let c: Vec<char> = s.chars().collect();
                     for i in 0..c.len() {
@@ -824,12 +972,13 @@ impl Prop for C17Prop {
                     }
                 }
             }
-            "e17props" => {
+            "e17props" | "m17props" | "m17write" => {
+                let op = t[0];
                 if let Some(m) = dec_vars(t[1]) {
                     for k in m.keys() {
                         let mut n = m.clone();
                         n.remove(k);
-                        out.push(format!("e17props {}", enc_vars(&n)));
+                        out.push(format!("{} {}", op, enc_vars(&n)));
                         let v = &m[k];
                         let vc: Vec<char> = v.chars().collect();
                         for i in 0..vc.len() {
@@ -837,7 +986,7 @@ impl Prop for C17Prop {
                             x.remove(i);
                             let mut n = m.clone();
                             n.insert(k.clone(), x.into_iter().collect());
-                            out.push(format!("e17props {}", enc_vars(&n)));
+                            out.push(format!("{} {}", op, enc_vars(&n)));
                         }
                         let kc: Vec<char> = k.chars().collect();
                         if kc.len() > 1 {
@@ -849,7 +998,7 @@ impl Prop for C17Prop {
                                     let mut n = m.clone();
                                     n.remove(k);
                                     n.insert(nk, v.clone());
-                                    out.push(format!("e17props {}", enc_vars(&n)));
+                                    out.push(format!("{} {}", op, enc_vars(&n)));
                                 }
                             }
                         }
@@ -876,7 +1025,9 @@ impl Prop for C17Prop {
             "e17text" | "e17b64d" | "e17hex" | "e17hexd" => format!("{} {:?}", &t[0][3..], dec_str(t[1]).unwrap_or_default()),
             "e17bytes" => format!("bytes {:?}", dec_bytes(t[1]).unwrap_or_default()),
             "e17json" => format!("json {}", value_of_tok(t[1]).map(|v| v.to_string()).unwrap_or_default()),
-            "e17props" => format!("props {:?}", dec_vars(t[1]).unwrap_or_default()),
+            "e17props" | "m17props" => format!("props {:?}", dec_vars(t[1]).unwrap_or_default()),
+            "m17write" => format!("write {:?}", dec_vars(t[1]).unwrap_or_default()),
+            "m17load" => format!("load {:?}", dec_str(t[1]).unwrap_or_default()),
             _ => req.to_string(),
         }
     }
